@@ -4,7 +4,7 @@ import random
 import numpy as np
 
 from spec import evaln, algebra as A
-from vk.common import BoundedPart
+from vk.common import sseed,  BoundedPart
 from . import gen_circuits as G, logic_drv, wave_drv as WD
 
 
@@ -66,7 +66,7 @@ def part_c03(tier, seed):
                     f'exhaustive-small family + {60 if tier == "quick" else 1200} seeded circuits')
     overflow = 0
     for c, sig in wave_circuits(tier, seed):
-        rng = random.Random(hash(('c03', str(sig), seed)) & 0xfffffff)
+        rng = random.Random(sseed(('c03', str(sig), seed)) & 0xfffffff)
         for opts in (WD.OPT_SETS if tier == 'thorough' else [WD.OPT_SETS[rng.randrange(4)], WD.OPT_SETS[0]]):
             n = rng.randrange(1, 6)
             delays = WD.make_delays(rng, c, zero_fork_inputs=opts['strip_forks'])
@@ -154,7 +154,7 @@ def part_c04(tier, seed):
                     'with all input times shifted by +-2^k, and with all times and delays scaled by 2^+-k, compared entry by entry; polarity-independent delays -> strictly '
                     'increasing time stamps; distinct = (circuit, delays kind, transform)', f'exhaustive-small family + {60 if tier == "quick" else 1200} seeded circuits')
     for c, sig in wave_circuits(tier, seed):
-        rng = random.Random(hash(('c04', str(sig), seed)) & 0xfffffff)
+        rng = random.Random(sseed(('c04', str(sig), seed)) & 0xfffffff)
         for mono in (False, True):
             opts = dict(c_reuse=False, strip_forks=False)
             n = rng.randrange(1, 4)
@@ -220,7 +220,7 @@ def part_c05(tier, seed):
                     'ini/fin components of the 8-valued result; plain 0/1 there => no transition at all in the waveform (EAT = TMAX, LST = TMIN); distinct = (circuit, options)',
                     f'exhaustive-small family + {60 if tier == "quick" else 1200} seeded circuits')
     for c, sig in wave_circuits(tier, seed):
-        rng = random.Random(hash(('c05', str(sig), seed)) & 0xfffffff)
+        rng = random.Random(sseed(('c05', str(sig), seed)) & 0xfffffff)
         for rep in range(2 if tier == 'quick' else 4):
             ow = WD.OPT_SETS[rng.randrange(4)] if rep else WD.OPT_SETS[0]
             ol = WD.OPT_SETS[rng.randrange(4)] if rep else WD.OPT_SETS[0]
@@ -375,7 +375,7 @@ def part_c06(tier, seed):
     for r in range(3):
         cases.append((fork_port_circuit(random.Random(seed + r)), ('fork-ports', r)))
     for c, sig in cases:
-        rng = random.Random(hash(('c06', str(sig), seed)) & 0xfffffff)
+        rng = random.Random(sseed(('c06', str(sig), seed)) & 0xfffffff)
         n = rng.randrange(2, 5)
         delays3 = WD.make_delays(rng, c, n_datasets=3, zero_fork_inputs=True)
         stim = WD.make_stim(rng, c, n, max_trans=1)
@@ -493,7 +493,7 @@ def part_c07(tier, seed):
         k += 1
         if sig[0] == 'single' and k % (6 if tier == 'quick' else 2):
             continue
-        rng = random.Random(hash(('c07', str(sig), seed)) & 0xfffffff)
+        rng = random.Random(sseed(('c07', str(sig), seed)) & 0xfffffff)
         for opts in (WD.OPT_SETS if tier == 'thorough' else [WD.OPT_SETS[rng.randrange(4)], WD.OPT_SETS[1]]):
             n = rng.randrange(1, 4)
             delays = WD.make_delays(rng, c, zero_fork_inputs=opts['strip_forks'])
@@ -586,7 +586,7 @@ def part_c13(tier, seed):
                     'overflow indicator clear => waveform identical to capacity 64, abuf = weighted rise/fall counts of the produced waveforms; distinct = (circuit, class, T kind)',
                     f'exhaustive-small family + {60 if tier == "quick" else 1200} seeded circuits')
     for c, sig in wave_circuits(tier, seed):
-        rng = random.Random(hash(('c13', str(sig), seed)) & 0xfffffff)
+        rng = random.Random(sseed(('c13', str(sig), seed)) & 0xfffffff)
         for cuda in (False, True):
             opts = dict(c_reuse=False, strip_forks=rng.random() < 0.3)
             n = rng.randrange(1, 4)
